@@ -373,3 +373,4 @@ PROP = C20()
 
 PROP.rule += (" Strata added while closing seeded changes (DESIGN section 10): "
               'binary caller streams, constructor/function calls, undecodable bytes late in the file, a prior call whose open() failed, descriptor-level os.open/os.read/os.close, a path naming a directory.')
+PROP.rule += ' Round 8: file-name suffixes (.gz, .txt, ...), unknown codec / error-handler names, gzip-compressed inputs.'
